@@ -104,7 +104,7 @@ class StorageReplayer:
 
     def data(self, o, d):
         d = norm(d)
-        return cz.make_record(self.cls[o], d['v'], d['refs'], pad=self.opts.get('pad', 0))
+        return cz.make_record(self.cls[o], d['v'], d['refs'], pad=self.opts.get('pad', 0), formats=cz.FORMATS)
 
     # ---- one action ----
     def step(self, action, args, state):
